@@ -87,7 +87,8 @@ async def spawn_daemons(
     if memory.live_fresh_body is None:  # for type-checking; "not None" is ensured in processing.
         raise RuntimeError("A daemon is spawned with None as body. This is a bug. Please report.")
     for handler in handlers:
-        if handler.id not in daemons:
+        # The handlers could be selected a few awaits ago; some could have exited on their own since.
+        if handler.id not in daemons and handler.id not in memory.forever_stopped:
             stopper = stoppers.DaemonStopper()
             live_body = memory.live_fresh_body
             daemon_cause = causes.DaemonCause(
